@@ -134,8 +134,9 @@ CLAIMS = {
         'technique': 'Coq proof (induction on loop fuel, lia/nia) over a hand model + differential correspondence check'},
     'C12': {
         'text': 'C12_parity / C12_same_cursors (coq/Prop_C12.v), on the specification the model refines exactly: erasing every accessor '
-                'flag of a tree whose function parameters and filter operands carry none (acc_clean, evaluated by the driver on every '
-                'parsed tree, together with erase(accessor-mode tree) = plain-mode tree) selects the same cursors in the same order — one '
+                'flag of a tree whose function parameters and filter operands carry none (acc_clean: proved for EVERY tree the parser '
+                'model returns, C12_parsed_trees_acc_clean / C12_parity_of_parsed_trees; the driver also evaluates it on every parsed '
+                'tree, together with erase(accessor-mode tree) = plain-mode tree, which is not a theorem) selects the same cursors in the same order — one '
                 'result per value, each yielding it, same failures; parameters and operands are identical subtrees in both modes. '
                 'Direct oracle: every generated path evaluated in both modes with recording functions (values, order, errors, argument logs).',
         'note': NOTE_COMMON, 'technique': 'Coq proof on the specification (mutual induction) + paired-mode oracle + correspondence'},
@@ -159,7 +160,8 @@ CLAIMS = {
                 'and a type mismatch is reported only if every failure at that depth is one; plus what each step kind reports for itself '
                 '(kind, own text, Go type found) and the ranking rule over any candidate list (C15_select_spec). Unbounded paths, '
                 'documents, branch counts. Hypotheses wf_node and ctext_ok (every node carries a non-empty remaining-path text: length 0 '
-                'doubles as "nothing recorded" in addDeepestError) are decidable and evaluated on every parsed tree. Tie: error type, path '
+                'doubles as "nothing recorded" in addDeepestError) are proved for every tree the parser model returns (C15_end_to_end has no '
+                'hypothesis on the tree) and also evaluated on every parsed tree. Tie: error type, path '
                 'text, expected, found compared exactly with the model on every failing generated pair; the extracted specification '
                 'runs next to the model; independent first-failing-step oracle for single-valued paths.',
         'note': NOTE_COMMON + EVAL_HYP,
